@@ -458,6 +458,21 @@ func respOptions(m *minfo, kind string) []res {
 	if m.Kind == "sync" {
 		need, opt = opt[:1], opt[1:]
 	}
+	// a failing status for the resource as a whole AND its properties under
+	// 200 in the same response (outside the DTD, seen in the field): the
+	// resource is reported as failed, its properties are not valid data
+	for _, c := range placementCodes {
+		if !failing(c) {
+			continue
+		}
+		for _, last := range []bool{false, true} {
+			var ps []pv
+			for _, id := range append(append([]string(nil), need...), opt...) {
+				ps = append(ps, pv{id, 200})
+			}
+			l = append(l, res{Kind: kind, Status: c, Props: ps, Both: true, StatusLast: last})
+		}
+	}
 	for _, a := range placementCodes {
 		if len(opt) == 0 {
 			var ps []pv
